@@ -51,7 +51,7 @@ def validate(ctx, name, trace, stakes, byz, module="Trace_Abs", invs=TRACE_INVS,
     with open(trace) as f:
         for line in f:
             m = re.search(r'"s":(\d+)', line)
-            if m:
+            if m and int(m.group(1)) < 100000:
                 max_slot = max(max_slot, int(m.group(1)))
     max_slot = ((max_slot // 4) + 2) * 4 - 1
     init, nxt = ("PInit", "PNext") if module == "Trace_Progress" else ("TraceInit", "TraceNext")
